@@ -7,7 +7,10 @@ Part A (Mathlib matrices over ℚ): for a row-stochastic `T` with stationary pro
 bijective `f`.  Row normalisation is a no-op on row-stochastic matrices; clipping + row normalisation gives a
 non-negative matrix whose non-zero rows sum to one.
 
-Part C (list level): the pieces of `Linalg.hsProject`, transported through `Lemmas/MatBridge.lean`.
+Part C (list level): the pieces of `Linalg.hsProject` (`aggrL`, `lumpL`, `kMatL`, `nMatL`, `hsL`, `clipIf`),
+transported through `Lemmas/MatBridge.lean`; `stationary_spec`/`stationary_sum` (the micro stationary vector is
+stationary and normalised), `certOk_of_wf` (the driver's certificates always hold, by `Bridge.inverse_correct`) and
+`model_core` (the values computed by the model satisfy `Setup`, and the output is `rowNormalizeQ (clip? hs)`).
 -/
 import Mathlib.LinearAlgebra.Matrix.NonsingularInverse
 import Mathlib.Algebra.Order.Ring.Rat
@@ -239,6 +242,18 @@ example : Setup (ι := Fin 3) (κ := Fin 2)
   · ext i j; fin_cases i <;> fin_cases j <;>
       simp [nMat, Matrix.mul_apply, Fin.sum_univ_succ, diagonal_apply] <;> norm_num
 
+/-- non-vacuity of `identity_lumping_id`: a 2-state chain with the identity assignment -/
+example : Setup (ι := Fin 2) (κ := Fin 2)
+    !![1/2, 1/2; 1/4, 3/4] ![1/3, 2/3] id !![11/9, -2/9; -1/9, 10/9] !![5/2, 1/4; 1/4, 11/8] := by
+  constructor
+  · ext i; fin_cases i <;> simp [mulVec, dotProduct, Fin.sum_univ_succ] <;> norm_num
+  · ext i; fin_cases i <;> simp [vecMul, dotProduct, Fin.sum_univ_succ] <;> norm_num
+  · simp [Fin.sum_univ_succ]; norm_num
+  · ext i j; fin_cases i <;> fin_cases j <;>
+      simp [kMat, Matrix.mul_apply, Fin.sum_univ_succ, Matrix.one_apply] <;> norm_num
+  · ext i j; fin_cases i <;> fin_cases j <;>
+      simp [nMat, Matrix.mul_apply, Fin.sum_univ_succ, diagonal_apply] <;> norm_num
+
 /-! ### row normalisation and clipping -/
 
 def rowNormalize (X : Matrix ι κ ℚ) : Matrix ι κ ℚ :=
@@ -261,6 +276,8 @@ theorem rowNormalizeQ_noop (X : List (List ℚ)) (h : ∀ row ∈ X, row.sum = 1
   apply List.map_congr_left
   intro row hrow
   simp [h row hrow]
+
+example : ∀ row ∈ ([[1/2, 1/2], [1/4, 3/4]] : List (List ℚ)), row.sum = 1 := by decide +kernel
 
 /-- negative entries set to zero (`np.clip(·, 0, None)` as used by `hsProject` with `positive = true`) -/
 def clip (X : List (List ℚ)) : List (List ℚ) := X.map (fun r => r.map (fun x => if x < 0 then 0 else x))
@@ -294,74 +311,34 @@ theorem positive (X : List (List ℚ)) :
   obtain ⟨y, -, rfl⟩ := hx
   split <;> [exact le_refl _; exact not_lt.mp ‹_›]
 
+theorem sum_le_sum_clipRow (r : List ℚ) : r.sum ≤ (r.map (fun x => if x < 0 then 0 else x)).sum := by
+  induction r with
+  | nil => simp
+  | cons a r ih =>
+    simp only [List.map_cons, List.sum_cons]
+    have : a ≤ (if a < 0 then 0 else a) := by split <;> [exact le_of_lt ‹_›; exact le_refl _]
+    exact add_le_add this ih
+
+/-- if the rows of `X` sum to one, clipping and renormalising gives non-negative rows that still sum to one -/
+theorem positive_of_rowSums (X : List (List ℚ)) (hX : ∀ row ∈ X, row.sum = 1) :
+    ∀ row ∈ rowNormalizeQ (clip X), (∀ x ∈ row, 0 ≤ x) ∧ row.sum = 1 := by
+  intro row hrow
+  obtain ⟨h0, h1⟩ := positive X row hrow
+  refine ⟨h0, h1 ?_⟩
+  simp only [rowNormalizeQ, List.mem_map] at hrow
+  obtain ⟨c, hc, rfl⟩ := hrow
+  simp only [clip, List.mem_map] at hc
+  obtain ⟨r, hr, rfl⟩ := hc
+  have hge : 1 ≤ (r.map (fun x => if x < 0 then 0 else x)).sum := hX r hr ▸ sum_le_sum_clipRow r
+  have hne : (r.map (fun x => if x < 0 then 0 else x)).sum ≠ 0 := by
+    intro h; rw [h] at hge; exact absurd hge (by norm_num)
+  rw [sum_map_div, if_neg hne, div_self hne]
+  exact one_ne_zero
+
 /-! ## Part C: the list-level model `Linalg.hsProject` -/
 
 section ListLevel
 open MsmVerif.Linalg MsmVerif.Bridge
-
-/-! ### shape of the Gauss–Jordan inverse -/
-
-theorem wf_gjStep {n k : ℕ} {aug aug' : Mat} (h : WF n k aug) {c : ℕ} (hc : c < n)
-    (hs : gjStep aug c = some aug') : WF n k aug' := by
-  unfold Linalg.gjStep at hs
-  simp only [h.1] at hs
-  split at hs
-  · exact absurd hs (by simp)
-  · rename_i p hp
-    have hpn : p < n := by
-      have := List.mem_of_mem_head? hp
-      simp only [List.mem_filter, List.mem_range] at this
-      exact this.1
-    simp only [Option.some.injEq] at hs
-    subst hs
-    refine ⟨by simp, ?_⟩
-    intro row hrow
-    simp only [List.mem_map, List.mem_range] at hrow
-    obtain ⟨r, hr, rfl⟩ := hrow
-    have hP : (aug.getD p []).length = k := h.getD_length hpn
-    have hC : (aug.getD c []).length = k := h.getD_length hc
-    split
-    · simpa using hP
-    · have hsw : WF n k ((aug.set p (aug.getD c [])).set c (aug.getD p [])) := by
-        refine ⟨by simpa using h.1, ?_⟩
-        intro row hrow
-        rcases List.mem_or_eq_of_mem_set hrow with h1 | h1
-        · rcases List.mem_or_eq_of_mem_set h1 with h2 | h2
-          · exact h.2 _ h2
-          · rw [h2, hC]
-        · rw [h1, hP]
-      simp only [List.length_map, List.length_zip, hsw.getD_length hr, hP, Nat.min_self]
-
-theorem wf_inverse {n : ℕ} {X Z : Mat} (h : WF n n X) (hZ : inverse X = some Z) : WF n n Z := by
-  unfold Linalg.inverse at hZ
-  simp only [h.1, Option.map_eq_some_iff] at hZ
-  obtain ⟨a, ha, rfl⟩ := hZ
-  have h0 : WF n (n + n) ((List.zip X (identity n)).map (fun p => p.1 ++ p.2)) := by
-    refine ⟨by simp [h.1, (WF.identity n).1], ?_⟩
-    intro row hrow
-    simp only [List.mem_map] at hrow
-    obtain ⟨⟨x, y⟩, hxy, rfl⟩ := hrow
-    have := List.of_mem_zip hxy
-    simp [h.2 x this.1, (WF.identity n).2 y this.2]
-  have key : ∀ (l : List ℕ) (acc : Option Mat), (∀ c ∈ l, c < n) → (∀ a, acc = some a → WF n (n + n) a) →
-      ∀ a, l.foldl (fun (acc : Option Mat) c => acc.bind (fun a => gjStep a c)) acc = some a → WF n (n + n) a := by
-    intro l
-    induction l with
-    | nil => intro acc _ hacc a ha; exact hacc a ha
-    | cons c l ih =>
-      intro acc hl hacc a ha
-      rw [List.foldl_cons] at ha
-      refine ih _ (fun c' hc' => hl c' (List.mem_cons_of_mem _ hc')) ?_ a ha
-      intro b hb
-      rw [Option.bind_eq_some_iff] at hb
-      obtain ⟨a0, ha0, hstep⟩ := hb
-      exact wf_gjStep (hacc a0 ha0) (hl c List.mem_cons_self) hstep
-  have hw := key (List.range n) _ (fun c hc => List.mem_range.mp hc) (fun a ha => by cases ha; exact h0) a ha
-  refine ⟨by simpa using hw.1, ?_⟩
-  intro row hrow
-  simp only [List.mem_map] at hrow
-  obtain ⟨r, hr, rfl⟩ := hrow
-  simp [hw.2 r hr]
 
 /-! ### the pieces of `hsProject` -/
 
@@ -416,6 +393,47 @@ theorem stationary_spec {n : ℕ} {T : Mat} {pi : Vec} (hT : WF n n T) (h : Lina
         refine ⟨hn, ?_, hv⟩
         rw [← hv]
         exact length_vecMat hT hn _
+      · exact absurd h (by simp)
+
+/-- the vector returned by `Linalg.stationary` sums to one -/
+theorem stationary_sum {n : ℕ} {T : Mat} {pi : Vec} (hT : WF n n T) (h : Linalg.stationary T = some pi) :
+    pi.sum = 1 := by
+  unfold Linalg.stationary at h
+  simp only [hT.1] at h
+  split at h
+  · exact absurd h (by simp)
+  · rename_i hn
+    have hn : 0 < n := Nat.pos_of_ne_zero hn
+    split at h
+    · exact absurd h (by simp)
+    · rename_i inv hinv
+      split at h
+      · simp only [Option.some.injEq] at h
+        subst h
+        have wA0 : WF n n (sub (Linalg.transpose T) (identity n)) := (hT.transpose hn).sub (WF.identity n)
+        have wA : WF n n ((sub (Linalg.transpose T) (identity n)).take (n - 1) ++ [List.replicate n (1 : ℚ)]) := by
+          refine ⟨by simp [wA0.1]; omega, ?_⟩
+          intro row hrow
+          rcases List.mem_append.mp hrow with h1 | h1
+          · exact wA0.2 _ (List.mem_of_mem_take h1)
+          · simp only [List.mem_singleton] at h1
+            simp [h1]
+        obtain ⟨wI, hmul, -⟩ := inverse_correct wA hinv
+        have hlast : ∀ k, entry ((sub (Linalg.transpose T) (identity n)).take (n - 1) ++ [List.replicate n (1 : ℚ)])
+            (n - 1) k = if k < n then 1 else 0 := by
+          intro k
+          have hl : ((sub (Linalg.transpose T) (identity n)).take (n - 1)).length = n - 1 := by
+            simp [wA0.1]
+          simp only [entry, List.getD_eq_getElem?_getD]
+          rw [List.getElem?_append_right (by omega), hl, Nat.sub_self]
+          by_cases hk : k < n <;> simp [hk]
+        have := congrFun (congrFun hmul ⟨n - 1, by omega⟩) ⟨n - 1, by omega⟩
+        simp only [Matrix.mul_apply, toMatrix_apply, hlast, Matrix.one_apply_eq] at this
+        rw [sum_map_eq_sum_fin (n := n) _ wI.1 _ []]
+        rw [← this]
+        apply Finset.sum_congr rfl
+        intro k _
+        simp [entry]
       · exact absurd h (by simp)
 
 /-! ### bridge for the aggregation matrix and the lumped populations -/
@@ -513,20 +531,6 @@ theorem toMatrix_nMatL {n m : ℕ} {pi : Vec} {assign : List ℕ} {Z : Mat} (hn 
   unfold nMatL nMat
   rw [toMatrix_mul ((wAt.mul wD hn).mul hZ hn) wA, toMatrix_mul (wAt.mul wD hn) hZ, toMatrix_mul wAt wD,
     toMatrix_transpose wA, toMatrix_diag hpi, toMatrix_aggrL hlen f hf]
-
-theorem isInverse_iff {n : ℕ} {X Y : Mat} (hX : WF n n X) (hY : WF n n Y) :
-    isInverse X Y = true ↔ toMatrix n n X * toMatrix n n Y = 1 := by
-  unfold isInverse
-  rw [beq_iff_eq, hX.1, ← toMatrix_mul hX hY, ← toMatrix_identity]
-  constructor
-  · intro h; rw [h]
-  · intro h
-    rcases Nat.eq_zero_or_pos n with hn | hn
-    · subst hn
-      have : X = [] := List.eq_nil_of_length_eq_zero hX.1
-      subst this
-      rfl
-    · exact WF.ext_toMatrix (hX.mul hY hn) (WF.identity n) h
 
 theorem setup_of_model {n m : ℕ} {T : Mat} {assign : List ℕ} {pi : Vec} {Z M : Mat}
     (hT : WF n n T) (hsum : ∀ row ∈ T, row.sum = 1) (hlen : assign.length = n) (hlt : ∀ s ∈ assign, s < m)
@@ -638,10 +642,32 @@ theorem certOk_spec {T : Mat} {assign : List ℕ} {m : ℕ} {pi : Vec} {Z M : Ma
   simp only [certOk, hpi, hZ, hM, Bool.and_eq_true, decide_eq_true_eq] at h
   exact h
 
+/-- **The certificates always hold** on well-formed input: Gauss–Jordan is correct (`Bridge.inverse_correct`) and
+the vector returned by `stationary` is normalised. -/
+theorem certOk_of_wf {n : ℕ} {T : Mat} {assign : List ℕ} (m : ℕ) (hT : WF n n T) (hlen : assign.length = n) :
+    certOk T assign m = true := by
+  unfold certOk
+  split
+  · rfl
+  · rename_i pi hpi
+    obtain ⟨hn, hpilen, -⟩ := stationary_spec hT hpi
+    have wK := wf_kMatL hT hpilen
+    simp only [stationary_sum hT hpi, decide_true, Bool.true_and]
+    split
+    · rfl
+    · rename_i Z hZ
+      have wZ := wf_inverse wK hZ
+      have wN : WF m m (nMatL pi assign m Z) := wf_nMatL hn hpilen hlen wZ
+      simp only [isInverse_inverse wK hZ, Bool.true_and]
+      split
+      · rfl
+      · rename_i M hM
+        exact isInverse_inverse wN hM
+
 /-- Everything the model computes, with the part-A hypotheses, the shape of the result and the matrix formula. -/
 theorem model_core {n m : ℕ} {T : Mat} {assign : List ℕ} {positive : Bool} {R : Mat}
     (hT : WF n n T) (hsum : ∀ row ∈ T, row.sum = 1) (hlen : assign.length = n) (hlt : ∀ s ∈ assign, s < m)
-    (hc : certOk T assign m = true) (h : hsProject T assign m positive = some R) :
+    (h : hsProject T assign m positive = some R) :
     ∃ pi Z M, Linalg.stationary T = some pi ∧ inverse (kMatL T pi) = some Z ∧
       inverse (nMatL pi assign m Z) = some M ∧ pi.length = n ∧ 0 < n ∧ 0 < m ∧ WF m m M ∧
       R = rowNormalizeQ (clipIf positive (hsL M (lumpL pi assign m) m)) ∧
@@ -650,7 +676,7 @@ theorem model_core {n m : ℕ} {T : Mat} {assign : List ℕ} {positive : Bool} {
       toMatrix m m (hsL M (lumpL pi assign m) m)
         = hs (toMatrix m m M) (lump (assignFn assign hlen hlt) (toVec n pi)) := by
   obtain ⟨pi, Z, M, hpi, hZ, hM, hR⟩ := hsProject_eq_some_iff.mp h
-  obtain ⟨hnorm, cZ, cM⟩ := certOk_spec hc hpi hZ hM
+  obtain ⟨hnorm, cZ, cM⟩ := certOk_spec (certOk_of_wf m hT hlen) hpi hZ hM
   obtain ⟨hn, hpilen, -⟩ := stationary_spec hT hpi
   have hm := pos_of_assign hlen hlt hn
   have wZ := wf_inverse (wf_kMatL hT hpilen) hZ
